@@ -35,6 +35,7 @@ REQUIRED = ["port_histories", "views_compared", "renames", "deletes",
             "other_messages_sharing_a_request_xid", "views_read_inside_the_handler",
             "nexus_level_stats_events_compared", "port_views_of_two_connections_compared",
             "parts_on_a_second_connection", "raw_replies_halted_on_the_nexus",
+            "raw_reply_handlers_that_failed",
             "handshakes_completed_by_a_refused_barrier"]
 TIMEOUT = {"quick": 900, "thorough": 7200}
 
@@ -356,6 +357,24 @@ def run_stats (case, rep):
         if nraw[0] % 2: return EventHalt
         e.halt = True
     lids.append(core.openflow.addListenerByName("RawStatsReply", raw_h))
+  if case.get("raw_fails"):
+    # somebody listens to the raw replies (on the connection, on the nexus or
+    # both) and the handler fails on some of them: its failure is its own;
+    # the part it was shown still counts
+    nrf = [0]
+    def raw_f (e):
+      if e.connection is not con: return
+      nrf[0] += 1
+      how = case["raw_fails"][1]
+      final = not (e.ofp.flags & 1)
+      if how == "all" or (how == "final" and final) or (how == "first" and nrf[0] == 1) \
+         or (how == "parts" and not final):
+        rep.count("raw_reply_handlers_that_failed")
+        raise RuntimeError("a RawStatsReply handler fails")
+    if case["raw_fails"][0] in ("con", "both"):
+      con.addListenerByName("RawStatsReply", raw_f)
+    if case["raw_fails"][0] in ("nexus", "both"):
+      lids.append(core.openflow.addListenerByName("RawStatsReply", raw_f))
   # a second connection whose replies use the same transaction ids and types
   other = None
   other_got = []
@@ -694,6 +713,9 @@ def gen_stats (rng, n):
                 interleaved=bool(inter), mode=mode)
     if rng.random() < 0.3: case["second_connection"] = True
     if rng.random() < 0.3: case["halt_raw"] = rng.choice(["all", "final", "first", "parts"])
+    elif rng.random() < 0.3:
+      case["raw_fails"] = [rng.choice(["con", "nexus", "both"]),
+                           rng.choice(["all", "final", "first", "parts"])]
     yield case
 
 
